@@ -84,6 +84,15 @@ TABLE = [
 ]
 
 
+# raisers whose GUARD reason is a property of specific callers: any other reachable direct caller is a violation
+ALLOWED_CALLERS = {
+    'segment:Composite.get_value': {
+        'map_if:element_if.is_valid': 'returns with error 6 before get_value() when elem.is_composite()',
+        'map_if:composite_if.is_valid': 'iterates the components of a Composite: those are Element objects, whose get_value never raises',
+    },
+}
+
+
 def _classify(site):
     for prefix, cat, why in TABLE:
         if site.startswith(prefix):
@@ -178,6 +187,16 @@ def r1_explicit_raises(ctx):
         if kind == 'dataele':
             for key, where, msg in fails:
                 yield Ob(key, False, where, msg)
+    for target, allowed in sorted(ALLOWED_CALLERS.items()):
+        callers = sorted({k for k in reach for callee, _ in g._edges[k] if callee == target})
+        if not callers:
+            raise AnalysisError('%s has no reachable caller any more: ALLOWED_CALLERS needs re-derivation' % target)
+        for k in callers:
+            ok = k in allowed
+            fnode = g.funcs[k].node
+            yield Ob('%s is called from %s' % (target, k), ok, ctx.floc(fnode),
+                     '' if ok else '%s can raise (%s) and this caller is not one of the guarded call sites %s: the exception escapes validation'
+                     % (target, [x for x in sites if x.startswith(target)][:1], sorted(allowed)), note=allowed.get(k))
     yield Ob('call graph: %d functions reachable, %d/%d calls resolved inside the package (%d by method name)'
              % (len(reach), g.stats['resolved'], g.stats['calls'], g.stats['by_name']), g.stats['unresolved_self'] <= 2, 'sa/callgraph.py',
              '' if g.stats['unresolved_self'] <= 2 else '%d unresolved self-calls' % g.stats['unresolved_self'], nontrivial=False)
